@@ -280,8 +280,8 @@ NSHARDS = 16
 
 
 def shards(tier, seed):
-    cnt = 330 if tier == "quick" else 45000
-    return [{"name": f"rand{i}", "kind": "rand", "i": i, "count": cnt, "budget_s": 100 if tier == "quick" else 1800}
+    cnt = 330 if tier == "quick" else 100000
+    return [{"name": f"rand{i}", "kind": "rand", "i": i, "count": cnt, "budget_s": 100 if tier == "quick" else 3600}
             for i in range(NSHARDS)]
 
 
